@@ -54,24 +54,24 @@ mod set_reach__runpar;
 mod cp__to;
 mod bool_lat__ser;
 mod lat_multi_improve__pari;
-mod count_paths__run;
-mod count_paths__runpar;
-mod neg_basic__mrt;
-mod neg_basic__srcpar;
-mod agg_minmaxsum__par;
-mod agg_lattice__par;
-mod neg_rec_after__par;
-mod agg_empty__par;
-mod disj__topar;
-mod disj__init;
-mod disj__exppar;
-mod pat_args__pari;
-mod multi_head_disj__ser;
-mod neg_in_disj__exp;
-mod mac_basic__mrt;
-mod mac_basic__srcpar;
-mod mac_nested__ser;
-mod mac_disj__exp;
+mod count_paths__pari;
+mod count_paths__src2;
+mod neg_basic__to;
+mod neg_basic__redecl;
+mod neg_basic__exp;
+mod agg_depth__to;
+mod agg_user__par;
+mod agg_bound_mix__par;
+mod disj__par;
+mod disj__src1;
+mod disj__ren;
+mod disj_nested__exppar;
+mod rep_expr__pari;
+mod neg_in_disj__ser;
+mod mac_basic__to;
+mod mac_basic__redecl;
+mod mac_capture__pari;
+mod mac_disj__ser;
 
 fn lookup(name: &str) -> fn() -> Box<dyn Driven> {
    match name {
@@ -121,24 +121,24 @@ fn lookup(name: &str) -> fn() -> Box<dyn Driven> {
       "cp__to" => cp__to::make,
       "bool_lat__ser" => bool_lat__ser::make,
       "lat_multi_improve__pari" => lat_multi_improve__pari::make,
-      "count_paths__run" => count_paths__run::make,
-      "count_paths__runpar" => count_paths__runpar::make,
-      "neg_basic__mrt" => neg_basic__mrt::make,
-      "neg_basic__srcpar" => neg_basic__srcpar::make,
-      "agg_minmaxsum__par" => agg_minmaxsum__par::make,
-      "agg_lattice__par" => agg_lattice__par::make,
-      "neg_rec_after__par" => neg_rec_after__par::make,
-      "agg_empty__par" => agg_empty__par::make,
-      "disj__topar" => disj__topar::make,
-      "disj__init" => disj__init::make,
-      "disj__exppar" => disj__exppar::make,
-      "pat_args__pari" => pat_args__pari::make,
-      "multi_head_disj__ser" => multi_head_disj__ser::make,
-      "neg_in_disj__exp" => neg_in_disj__exp::make,
-      "mac_basic__mrt" => mac_basic__mrt::make,
-      "mac_basic__srcpar" => mac_basic__srcpar::make,
-      "mac_nested__ser" => mac_nested__ser::make,
-      "mac_disj__exp" => mac_disj__exp::make,
+      "count_paths__pari" => count_paths__pari::make,
+      "count_paths__src2" => count_paths__src2::make,
+      "neg_basic__to" => neg_basic__to::make,
+      "neg_basic__redecl" => neg_basic__redecl::make,
+      "neg_basic__exp" => neg_basic__exp::make,
+      "agg_depth__to" => agg_depth__to::make,
+      "agg_user__par" => agg_user__par::make,
+      "agg_bound_mix__par" => agg_bound_mix__par::make,
+      "disj__par" => disj__par::make,
+      "disj__src1" => disj__src1::make,
+      "disj__ren" => disj__ren::make,
+      "disj_nested__exppar" => disj_nested__exppar::make,
+      "rep_expr__pari" => rep_expr__pari::make,
+      "neg_in_disj__ser" => neg_in_disj__ser::make,
+      "mac_basic__to" => mac_basic__to::make,
+      "mac_basic__redecl" => mac_basic__redecl::make,
+      "mac_capture__pari" => mac_capture__pari::make,
+      "mac_disj__ser" => mac_disj__ser::make,
       _ => panic!("no such program variant in this shard: {}", name),
    }
 }
